@@ -16,6 +16,7 @@ EXPLANATION = (
     "bound through get_assign of the defining namespace; C11-R6 rendering of the lambda signature by "
     "the custom unparser (skeleton rule on unparse_Lambda); C11-R7 the innermost operand of the "
     "decorator chain is the lambda itself (converter-added wrappers go outside the user's decorators)."
+    ' C11-R6 includes the pairing analysis of positional defaults: the position a default is attached at, as a linear form in the iteration number and the list lengths, equals len(posonlyargs)+len(args)-len(defaults)+j; shared: C12-R5, C01-R2, C06-R5.'
 )
 ASSUMPTIONS = ["CPython binds call arguments from the lambda's signature (run-time behaviour, not decided)"]
 
